@@ -86,9 +86,11 @@ def run_case(spec, work):
                                                 r.get('stderr'))
         # crashes on valid input belong to C01; here they only make the
         # case unusable
-        return {'violations': [], 'counters': {'runs_raised': 1},
-                'inconclusive': f'mapping raised ({sig}): {last}',
-                'features': None, 'nontrivial': False}
+        return {'violations': [{
+                    'sig': f'C03:mapping-raised-on-valid-input:{sig}',
+                    'msg': f'mapping raised: {last}'}],
+                'counters': {'runs_raised': 1},
+                'features': ['raised'], 'nontrivial': True}
     js = r['json']
     viol += oracles.check_confidence(w, js['results'], counters)
     nontrivial = counters.get('voted_records', 0) > 0
